@@ -443,7 +443,7 @@ theorem receivedPacket_rconn (e : Env) (c : Conn) (bits : Bits) (tg calls : List
       -- the counter advances by the circular distance of the header sequence, which is positive and below 2^13
       have hdl : 0 < c.notify.deltaSeq hd ∧ c.notify.deltaSeq hd < 8192 := by
         refine ⟨by omega, ?_⟩
-        unfold Notify.deltaSeq
+        rw [Notify.deltaSeq_eq] at hdelta ⊢; unfold Notify.deltaSeqSpec at hdelta ⊢
         split
         · exact (C13.diff_spec hd.seq c.notify.inSeq ⟨hseq.1, by omega⟩ ⟨h.inSeq.1, by have := h.inSeq.2; omega⟩).2.1
         · omega
